@@ -403,7 +403,7 @@ def run_real(spec, out):
                 numerically_singular = False
             if numerically_singular:
                 # curvatures spanning more decades than a double precision Cholesky factorisation can certify: the solver refreshes its
-                # memory (repository fix 2a1de4d, as Algorithm 778 does); outside the numerical premise of the statement
+                # memory (repository fix dc83f52, as Algorithm 778 does); outside the numerical premise of the statement
                 out.count("update_raised_on_numerically_singular_memory")
                 continue
             out.violate("update_raised", f"run {spec['problem']['family']}: update_lbfgs_matrices raised {ev['exc']!r}", source="run")
